@@ -139,7 +139,6 @@ def finalize_consumer(db):
     K = "repid/connections/redis/consumer.py::_RedisConsumer."
     STORE = [f"{C}.lists", f"{C}.zmem", f"{C}.zscore", f"{C}.hmem", f"{C}.hval"]
     db.contract(fn=K + "__mark_processing", serves=["C14"], inline=True, note="private helper that only queues commands")
-    db.shape("RedisMessageBroker", {"processing_queue": "str"})
     MATCH = "(not nonempty(topics) or exists(t, 'str', t in topics and result.startswith(t + ':')))"
     db.contract(
         fn=K + "__fetch_message_name", assumed=True, is_async=True, returns="Optional[str]",
